@@ -4,6 +4,7 @@ package genprops
 
 import (
 	"bytes"
+	"encoding/json"
 	"fmt"
 	"go/ast"
 	"go/parser"
@@ -58,9 +59,10 @@ func scratch() string {
 			panic(err)
 		}
 		scratchRoot = d
-		mod := "module verifgen\n\ngo 1.18\n\nrequire github.com/PapaCharlie/go-restli/v2 v2.0.0\n\nreplace github.com/PapaCharlie/go-restli/v2 => " + filepath.Join(repo, "v2") + "\n"
+		// genModulePath / genModuleVersion / genModuleDir: the go-restli module of this generation (gen_v1_test.go, gen_v2_test.go)
+		mod := "module verifgen\n\ngo 1.18\n\nrequire " + genModulePath + " " + genModuleVersion + "\n\nreplace " + genModulePath + " => " + genModuleDir() + "\n"
 		must(os.WriteFile(filepath.Join(d, "go.mod"), []byte(mod), 0o644))
-		sum, err := os.ReadFile(filepath.Join(repo, "v2", "go.sum"))
+		sum, err := os.ReadFile(filepath.Join(genModuleDir(), "go.sum"))
 		must(err)
 		must(os.WriteFile(filepath.Join(d, "go.sum"), sum, 0o644))
 	}
@@ -169,8 +171,8 @@ func checkGen(rec *stats.Recorder, c genCase) (msg string, known string) {
 	work := filepath.Join(mod, fmt.Sprintf("c%d.work", caseNo))
 	must(os.MkdirAll(work, 0o755))
 	defer func() { chmodAll(work); os.RemoveAll(work) }()
-	manifest := filepath.Join(work, "manifest.json")
-	must(os.WriteFile(manifest, s.ManifestV2(), 0o644))
+	manifest := filepath.Join(work, genSpecFile)
+	must(os.WriteFile(manifest, renderSpec(s), 0o644))
 	out0 := filepath.Join(mod, fmt.Sprintf("c%d", caseNo))
 	defer func() { chmodAll(out0); os.RemoveAll(out0) }()
 
@@ -201,7 +203,7 @@ func checkGen(rec *stats.Recorder, c genCase) (msg string, known string) {
 		return fmt.Sprintf(format, a...), ""
 	}
 	// 1. total: the generator succeeds
-	o, err := run(mod, gendrv, manifest, out0)
+	o, err := run(mod, gendrv, drvArgs(manifest, out0, root)...)
 	if err != nil {
 		if strings.Contains(o, "GENERATOR-ERROR") && !strings.Contains(o, "panic") && !strings.Contains(o, "goroutine ") {
 			return fail("the generator rejected a well-formed schema set: %s", lastLines(o, 6))
@@ -212,7 +214,7 @@ func checkGen(rec *stats.Recorder, c genCase) (msg string, known string) {
 	// 2. deterministic: fresh processes give byte-identical trees
 	for k := 1; k < 3; k++ {
 		outk := filepath.Join(work, fmt.Sprintf("out%d", k))
-		if o, err := run(mod, gendrv, manifest, outk); err != nil {
+		if o, err := run(mod, gendrv, drvArgs(manifest, outk, root)...); err != nil {
 			return fail("the generator failed on run %d of the same manifest: %s", k+1, lastLines(o, 8))
 		}
 		if d := diffTrees(t0, readTree(outk)); d != "" {
@@ -269,13 +271,19 @@ func runGenProperty(t *testing.T, stress bool, check string) {
 	rapid.Check(t, func(rt *rapid.T) {
 		c := genCase{Stress: stress}
 		c.Schema = schema.RandomManifest(rt, "verifgen/x", schema.ManifestOpts{IdentifierStress: stress})
+		restrictForGen(c.Schema) // no-op for v2; for the root module the documented filter of gen_v1_test.go
 		msg, known := checkGen(rec, c)
 		if known != "" {
 			rec.Known(known, kf.What(known), c)
 			return
 		}
+		if d := os.Getenv("VERIF_C12_EXPLORE"); d != "" && msg != "" { // TEMPORARY-EXPLORE
+			b, _ := json.Marshal(map[string]any{"msg": msg, "schema": c.Schema})
+			os.WriteFile(filepath.Join(d, fmt.Sprintf("%d-%d.json", os.Getpid(), caseNo)), b, 0o644)
+			return
+		}
 		if msg != "" {
-			c.Manifest = string(c.Schema.ManifestV2())
+			c.Manifest = string(renderSpec(c.Schema))
 			rec.Violation(check, msg, c)
 			rt.Fatalf("property violated (details in the replay file)")
 		}
@@ -305,6 +313,8 @@ func stripped(src string) (string, error) {
 	return b.String(), nil
 }
 
+// TestC12CheckedIn: the bindings checked into the repository are what the current generator produces (the comparison
+// itself is generation-specific: checkedInBindings in gen_v2_test.go / gen_v1_test.go).
 func TestC12CheckedIn(t *testing.T) {
 	rec := stats.For("C12")
 	if hx.Replaying() {
@@ -313,21 +323,14 @@ func TestC12CheckedIn(t *testing.T) {
 	if i, _ := hx.ShardIndex(); i != 0 {
 		t.Skip()
 	}
-	checked := filepath.Join(repo, "v2", "restlidata", "generated")
-	mod := scratch()
-	out := filepath.Join(mod, "checkedin")
-	defer func() { chmodAll(out); os.RemoveAll(out) }()
-	o, err := run(mod, gendrv, filepath.Join(checked, "go-restli-manifest.gr.json"), out)
-	rec.Case("checked_in_bindings")
-	rec.NonTrivial("checked-in", "checked-in", func() any { return "v2/restlidata/generated regenerated from its own manifest" })
-	if err != nil {
-		msg := "the generator fails on the checked-in manifest: " + lastLines(o, 10)
-		rec.Violation("checked-in", msg, nil)
-		t.Fatal(msg)
-	}
-	fresh := readTree(out)
+	checkedInBindings(t, rec)
+}
+
+// compareCheckedIn compares the checked-in generated files (name -> text) with a fresh generation: bytes first, then
+// the AST without comments.
+func compareCheckedIn(t *testing.T, rec *stats.Recorder, checked, fresh map[string]string, from string) {
 	n := 0
-	for name, want := range readTree(checked) {
+	for name, want := range checked {
 		if !strings.HasSuffix(name, ".gr.go") {
 			continue
 		}
@@ -346,7 +349,7 @@ func TestC12CheckedIn(t *testing.T) {
 		a, e1 := stripped(want)
 		b, e2 := stripped(got)
 		if e1 != nil || e2 != nil || a != b {
-			msg := fmt.Sprintf("checked-in %s is not what the current generator produces from the checked-in manifest: %s", name, diffTrees(map[string]string{name: a}, map[string]string{name: b}))
+			msg := fmt.Sprintf("checked-in %s is not what the current generator produces from %s: %s", name, from, diffTrees(map[string]string{name: a}, map[string]string{name: b}))
 			rec.Violation("checked-in", msg, name)
 			t.Error(msg)
 			continue
@@ -355,7 +358,7 @@ func TestC12CheckedIn(t *testing.T) {
 	}
 	for name := range fresh {
 		if strings.HasSuffix(name, ".gr.go") && name != "all_imports_test.gr.go" {
-			if _, ok := readTree(checked)[name]; !ok {
+			if _, ok := checked[name]; !ok {
 				msg := "the current generator produces " + name + " which is not checked in"
 				rec.Violation("checked-in", msg, name)
 				t.Error(msg)
@@ -407,6 +410,14 @@ func witnessDerivedNameClash() *schema.Schema {
 	return s
 }
 
+// kfWitness is a fixed schema set showing an open known finding; the classes they stand for are kept out of the random
+// grammar. The tables are generation-specific (knownWitnesses in gen_v2_test.go / gen_v1_test.go).
+type kfWitness struct {
+	id      string
+	s       *schema.Schema
+	symptom string // the witness only counts as the known finding when it fails this way
+}
+
 func TestC12KnownFindings(t *testing.T) {
 	rec := stats.For("C12")
 	if hx.Replaying() {
@@ -415,17 +426,7 @@ func TestC12KnownFindings(t *testing.T) {
 	if i, _ := hx.ShardIndex(); i != 0 {
 		t.Skip()
 	}
-	for _, w := range []struct {
-		id      string
-		s       *schema.Schema
-		symptom string // the witness only counts as the known finding when it fails this way
-	}{
-		{"KF-C12-bytes-key", witnessBytesKey(), "[]byte"},
-		{"KF-C12-include-field-clash", witnessIncludeClash(), "redeclared"},
-		{"KF-C12-field-method-clash", witnessFieldMethodClash(), "field and method with the same name"},
-		{"KF-C12-receiver-package-clash", witnessReceiverPackageClash(), "x.Item"},
-		{"KF-C12-derived-type-name-clash", witnessDerivedNameClash(), "Node_PartialUpdate redeclared"},
-	} {
+	for _, w := range knownWitnesses() {
 		c := genCase{Schema: w.s}
 		msg, _ := checkGen(rec, c)
 		if msg == "" {
@@ -435,7 +436,7 @@ func TestC12KnownFindings(t *testing.T) {
 			rec.Known(w.id, kf.What(w.id), map[string]any{"witness": w.id, "compiler": msg})
 			continue
 		}
-		c.Manifest = string(w.s.ManifestV2())
+		c.Manifest = string(renderSpec(w.s))
 		rec.Violation("witness-"+w.id, msg, c)
 		t.Error(msg)
 	}
